@@ -391,8 +391,11 @@ def run_check(pid, tier):
     if bad:
         broken.append({"kind": "proof", "what": "forbidden command in Coq sources", "detail": "\n".join(bad[:20])})
 
-    # harness + model
-    if ok:
+    # harness + model.  The Go-side oracle does not depend on the Coq build: when a proof
+    # obligation (e.g. one over a regenerated constant) or the extraction no longer builds, the
+    # oracle still searches the implementation for a failing input.
+    harness_ready = ok or (stage != "go build -tags verif (harness against /repo)" and os.path.exists(os.path.join(WORK, "bin", "harness")))
+    if harness_ready:
         hcmd = [os.path.join(WORK, "bin", "harness"), "prop", pid, "--seed", str(seed), "--tier", tier, "--out", work, "--repo", REPO]
         tmo = cfg.get("timeout_s", {}).get(tier, 900 if tier == "quick" else 7200)
         th = time.time()
@@ -409,7 +412,7 @@ def run_check(pid, tier):
             oracle["harness_s"] = harness_s
             for v in oracle.get("violations", []):
                 violations.append(v)
-        drv = cfg.get("driver")
+        drv = cfg.get("driver") if ok else None
         if drv and os.path.exists(os.path.join(work, "cases.txt")):
             exe = os.path.join(WORK, "ocaml", drv["name"], "driver")
             tm = time.time()
